@@ -43,6 +43,8 @@ def run_c18(ctx):
         i = len(scs)
         scs.append({'kind': 'split', 'src': src, 'ckind': kind, 'c': c, 'order': order,
                     'form': forms[i % 3], 'cform': ['list', 'iter'][(i // 3) % 2]})
+        if i % 4 == 3 and len(order) >= 2:     # one result iterator is closed and dropped part-way: the other one is unaffected
+            scs[-1]['drop'] = [order[0], 1 + (i // 4) % (len(order) - 1)]
     if len(scs) < 1000:
         raise core.MachineryError('SplitGen produced only %d cases' % len(scs))
     # longer sources: random configurations, every order generated in Python from the same alphabet
@@ -60,6 +62,8 @@ def run_c18(ctx):
         order = [rng.choice('TF') for _ in range(rng.randint(0, ln + 3))]
         extra.append({'kind': 'split', 'src': src, 'ckind': kind, 'c': c, 'order': order,
                       'form': rng.choice(forms), 'cform': rng.choice(['list', 'iter'])})
+        if len(order) >= 2 and rng.random() < 0.3:
+            extra[-1]['drop'] = [rng.choice('TF'), rng.randint(0, len(order) - 1)]
     for fam, part in (('tlc_enumerated', scs), ('random_longer', extra)):
         for off in range(0, len(part), 8000):
             ctx.run_and_validate(DRIVER, COMP, 'SplitTrace', part[off:off + 8000], fam,
